@@ -2,7 +2,10 @@
 
 package swap
 
-import "github.com/elementsproject/peerswap/zzverif"
+import (
+	"github.com/elementsproject/peerswap/messages"
+	"github.com/elementsproject/peerswap/zzverif"
+)
 
 // vProbeAction stands in for a state's action and looks at the store while it "runs".
 type vProbeAction struct {
@@ -51,4 +54,44 @@ func H_C15_stateStoredAfterAction() {
 		zzverif.Reach("c15.action_ran")
 		zzverif.Assert(probe.storedState == t.from, "C15.record_names_previous_state_while_action_runs")
 	}
+}
+
+// H_C15_failOnRecoverStatesOnlyCancel: the states the tables mark fail-on-recover are those whose record is
+// (also) on disk while a payment or a broadcast may be half done.  A restart from such a record gives the
+// swap up and does nothing else: no fee payment, no claim payment, no opening transaction, no new invoice,
+// no message other than cancel - in particular the state's own action is not run again first.
+// Which states carry the flag is read from the real tables; candidates: every state up to the first
+// broadcast / payment of the four roles.  No injected faults.
+func H_C15_failOnRecoverStatesOnlyCancel() {
+	type node struct {
+		role int
+		st   StateType
+	}
+	nodes := []node{
+		{rOutSender, State_SwapOutSender_CreateSwap}, {rOutSender, State_SwapOutSender_SendRequest}, {rOutSender, State_SwapOutSender_AwaitAgreement}, {rOutSender, State_SwapOutSender_PayFeeInvoice},
+		{rInSender, State_SwapInSender_CreateSwap}, {rInSender, State_SwapInSender_SendRequest}, {rInSender, State_SwapInSender_AwaitAgreement},
+		{rOutReceiver, State_SwapOutReceiver_CreateSwap}, {rOutReceiver, State_SwapOutReceiver_SendFeeInvoice}, {rOutReceiver, State_SwapOutReceiver_AwaitFeeInvoicePayment},
+		{rInReceiver, State_SwapInReceiver_CreateSwap}, {rInReceiver, State_SwapInReceiver_SendAgreement},
+	}
+	n := nodes[zzverif.Choice("node", len(nodes))]
+	sc := vBuild(n.role, n.st, zzverif.Bool("liquid"), 7)
+	if !sc.sm.States[n.st].FailOnrecover {
+		return
+	}
+	w := sc.env.w
+	w.maxFaults = 0
+	w.narrow = sc.sm.Data
+	sc.env.store.recs[sc.id] = vSnapshot(sc.sm)
+	sc.vRestart()
+	post := sc.vCurrent()
+	zzverif.Reach("c15.fail_on_recover_restart")
+	zzverif.Assert(post == State_SwapCanceled || post == State_SendCancel, "C15.fail_on_recover_state_is_given_up")
+	zzverif.Assert(len(w.feePays) == 0 && len(w.pays) == 0 && w.openings == 0 && w.invoicesMade == 0, "C15.fail_on_recover_restart_pays_and_broadcasts_nothing")
+	onlyCancel := true
+	for i := range w.sends {
+		if w.sends[i].msgType != int(messages.MESSAGETYPE_CANCELED) {
+			onlyCancel = false
+		}
+	}
+	zzverif.Assert(onlyCancel, "C15.fail_on_recover_restart_sends_only_cancel")
 }
